@@ -633,3 +633,143 @@ Proof.
 Qed.
 
 End DecoderProofs.
+
+(* ------------------------------------------------------------------------ *)
+(* whole messages, encoder side                                              *)
+(* ------------------------------------------------------------------------ *)
+Lemma encode_section_whole ign c vs props o o' props' sec :
+  sl_first (s_params c) = true ->
+  encode_section ign c vs props o = Ok (o', props', sec) ->
+  exists e, o' = o ++ e /\ sec_nbits sec = length e /\ (Z.of_nat (length e) mod 8 = 0)%Z /\
+            sec_index sec = s_index c /\ sec_params sec = s_params c.
+Proof.
+  intros Hf H. pose proof (encode_section_pieces _ _ _ _ _ _ _ _ H) as (body & props1 & edition & Hw & He & Hrest).
+  cbv zeta in Hrest. destruct Hrest as (Hi & Hp & Hn & _).
+  destruct (section_zero_padded _ _ _ _ _ _ _ _ _ _ _ Hf Hw He H) as (body' & fill & -> & Lb & Hm & _).
+  exists (body' ++ zeros fill). split; [reflexivity|].
+  rewrite Hn. rewrite !app_length, length_zeros, Lb. split; [lia|]. split; [exact Hm|]. auto.
+Qed.
+
+Lemma get_configuration_in defs props i c : get_configuration defs props i = Ok c ->
+  In c defs /\ s_index c = i.
+Proof.
+  unfold get_configuration. destruct (negb _); [discriminate|].
+  destruct (config_for defs i 0) as [d|] eqn:Ed; [|discriminate].
+  destruct (config_for defs i (section_edition props)) as [c'|] eqn:Ec; intros E; injection E as <-.
+  - unfold config_for in Ec. apply find_some in Ec as [Hin Hb]. apply andb_true_iff in Hb as [Hb _]. split; [exact Hin|lia].
+  - unfold config_for in Ed. apply find_some in Ed as [Hin Hb]. apply andb_true_iff in Hb as [Hb _]. split; [exact Hin|lia].
+Qed.
+
+Lemma configure_section_plain defs props i c :
+  configure_section defs props i false false = Ok (Some c) -> In c defs /\ s_index c = i.
+Proof.
+  unfold configure_section. intros H. apply bind_ok in H as (c0 & Hg & H).
+  unfold transform in H. destruct (existsb bytes_width_bad (s_params c0)); [discriminate|].
+  apply bind_ok in H as (b & _ & H). destruct b; [|discriminate]. injection H as <-.
+  eapply get_configuration_in; exact Hg.
+Qed.
+
+(* attributes of names no later section defines are left alone *)
+Definition no_param_from (defs : list sconfig) (idxs : list N) (n : pname) : Prop :=
+  forall c, In c defs -> In (s_index c) idxs -> has_param n (s_params c) = false.
+
+Lemma write_params_props n ps : forall vs props o o1 props1,
+  has_param n ps = false ->
+  write_params ps vs props o = Ok (o1, props1) -> prop_get n props1 = prop_get n props.
+Proof.
+  induction ps as [|p ps IH]; intros vs props o o1 props1 Hn; cbn [write_params].
+  - intros E; injection E as <- <-. reflexivity.
+  - destruct vs as [|v vs]; [discriminate|]. intros H. apply bind_ok in H as (a & _ & H).
+    unfold has_param in Hn. cbn [existsb] in Hn. apply orb_false_iff in Hn as [Hp Hn].
+    rewrite (IH _ _ _ _ _ Hn H). unfold add_prop. destruct (p_prop p); [|reflexivity].
+    cbn [prop_get]. rewrite Hp. reflexivity.
+Qed.
+
+Lemma find_param_in n ps p : find_param n ps = Some p -> p_name p = n /\ has_param n ps = true.
+Proof.
+  unfold has_param. induction ps as [|q ps IH]; cbn [find_param existsb]; [discriminate|].
+  destruct (pname_beq (p_name q) n) eqn:E.
+  - intros H; injection H as <-. split; [apply internal_pname_dec_bl, E|reflexivity].
+  - intros H. destruct (IH H) as [H1 H2]. rewrite H2. split; [exact H1|apply orb_true_r].
+Qed.
+
+Lemma encode_section_props n ign c vs props o o' props' sec :
+  has_param n (s_params c) = false ->
+  encode_section ign c vs props o = Ok (o', props', sec) -> prop_get n props' = prop_get n props.
+Proof.
+  intros Hn H. apply encode_section_pieces in H as (body & props1 & edition & Hw & _ & H).
+  cbv zeta in H. destruct H as (_ & _ & _ & H).
+  pose proof (write_params_props _ _ _ _ _ _ _ Hn Hw) as E1.
+  destruct (find_param Nsection_length (s_params c)) as [pl|] eqn:Hf.
+  - destruct H as (sl & _ & H). destruct ((sl =? 0)%Z || ign).
+    + destruct H as (off & _ & _ & -> & _). unfold add_prop. destruct (p_prop pl); [|exact E1].
+      cbn [prop_get]. destruct (find_param_in _ _ _ Hf) as [Hname Hhas].
+      destruct (pname_beq (p_name pl) n) eqn:E; [|exact E1].
+      apply internal_pname_dec_bl in E. rewrite Hname in E. subst n. congruence.
+    + destruct H as (-> & _). exact E1.
+  - destruct H as (_ & -> & _). exact E1.
+Qed.
+
+(* the section loop: the writer grows by whole-octet sections laid end to end;
+   the loop ends with a section whose configuration has end_of_message *)
+Lemma encode_sections_ok ign defs idxs :
+  forallb (fun c => sl_first (s_params c)) defs = true ->
+  forall json props secs o o' props' secs',
+  encode_sections ign defs idxs json props secs o = Ok (o', props', secs') ->
+  exists e new,
+    o' = o ++ e /\ secs' = secs ++ new /\ length e = sections_nbits new /\
+    (Z.of_nat (length e) mod 8 = 0)%Z /\
+    Forall (fun s => exists c, In c defs /\ In (s_index c) idxs /\ sec_index s = s_index c /\
+                               sec_params s = s_params c) new /\
+    (forall n, no_param_from defs idxs n -> prop_get n props' = prop_get n props) /\
+    (* the last section *)
+    exists e0 c vs props_k sec,
+      e0 ++ skipn (length e0) e = e /\ (Z.of_nat (length e0) mod 8 = 0)%Z /\
+      In c defs /\ s_end c = true /\ length (s_params c) = length vs /\
+      encode_section ign c vs props_k (o ++ e0) = Ok (o', props', sec).
+Proof.
+  intros Hdefs. rewrite forallb_forall in Hdefs.
+  induction idxs as [|i idxs IH]; intros json props secs o o' props' secs'; cbn [encode_sections].
+  - destruct json; discriminate.
+  - destruct json as [|vs json]; [discriminate|]. intros H.
+    apply bind_ok in H as (oc & Hc & H). destruct oc as [c|].
+    + destruct (configure_section_plain _ _ _ _ Hc) as [Hin Hidx].
+      destruct (Nat.eqb_spec (length (s_params c)) (length vs)) as [Hlen|]; [|discriminate]. cbn [negb] in H.
+      apply bind_ok in H as ([[o1 props1] sec] & Hs & H).
+      destruct (encode_section_whole _ _ _ _ _ _ _ _ (Hdefs _ Hin) Hs) as (e1 & -> & Hn1 & Hm1 & Hi1 & Hp1).
+      assert (Hsec : exists c0, In c0 defs /\ In (s_index c0) (i :: idxs) /\ sec_index sec = s_index c0 /\
+                                sec_params sec = s_params c0).
+      { exists c. rewrite Hidx. repeat split; auto with datatypes; congruence. }
+      destruct (s_end c) eqn:Hend.
+      * injection H as <- <- <-. exists e1, [sec]. split; [reflexivity|]. split; [reflexivity|].
+        cbn [sections_nbits]. split; [lia|]. split; [exact Hm1|]. split; [constructor; [exact Hsec|constructor]|].
+        split.
+        { intros n Hno. eapply encode_section_props; [|exact Hs]. apply Hno; [exact Hin|]. rewrite Hidx. left; reflexivity. }
+        exists [], c, vs, props, sec. cbn [app length skipn]. rewrite app_nil_r.
+        repeat split; auto.
+      * apply IH in H as (e2 & new & -> & -> & Hl2 & Hm2 & Hall & Hprops & Hlast).
+        exists (e1 ++ e2), (sec :: new). rewrite <- !app_assoc. split; [reflexivity|]. split; [reflexivity|].
+        cbn [sections_nbits]. rewrite app_length. split; [lia|]. split; [zdiv|].
+        split.
+        { constructor; [exact Hsec|]. eapply Forall_impl; [|exact Hall].
+          intros s (c0 & A & B & C & D). exists c0. repeat split; auto. right; exact B. }
+        split.
+        { intros n Hno. rewrite Hprops.
+          - eapply encode_section_props; [|exact Hs]. apply Hno; [exact Hin|]. rewrite Hidx. left; reflexivity.
+          - intros c0 A B. apply Hno; [exact A|right; exact B]. }
+        destruct Hlast as (e0 & c5 & vs5 & props_k & sec5 & He0 & Hm0 & Hin5 & Hend5 & Hlen5 & Henc5).
+        exists (e1 ++ e0), c5, vs5, props_k, sec5.
+        split.
+        { rewrite app_length, <- app_assoc. f_equal.
+          rewrite Nat.add_comm, <- skipn_skipn. rewrite skipn_app_exact by reflexivity. exact He0. }
+        split; [rewrite app_length; zdiv|]. repeat split; auto.
+        rewrite (app_assoc o e1 e2), (app_assoc o e1 e0). exact Henc5.
+    + apply IH in H as (e2 & new & -> & -> & Hl2 & Hm2 & Hall & Hprops & Hlast).
+      exists e2, new. split; [reflexivity|]. split; [reflexivity|]. split; [exact Hl2|]. split; [exact Hm2|].
+      split.
+      { eapply Forall_impl; [|exact Hall].
+        intros s (c0 & A & B & C & D). exists c0. repeat split; auto. right; exact B. }
+      split.
+      { intros n Hno. apply Hprops. intros c0 A B. apply Hno; [exact A|right; exact B]. }
+      exact Hlast.
+Qed.
